@@ -39,12 +39,15 @@ const (
 	dRawFlags
 	dRawBin
 	dChain
+	dRecShape
+	dVoutPat
+	dForeignKind
 	nDims
 )
 
 var dimNames = [nDims]string{"type", "atype", "testnet", "input-kinds", "input-amounts", "layout", "foreign-first", "keys", "destinations",
 	"amount-class", "fee", "subfee", "change", "msg", "seq", "locktime", "txver", "useallinputs", "rfc6979", "via", "txfn", "no-apply", "amount-format",
-	"raw", "raw-flags", "raw-binary", "chain"}
+	"raw", "raw-flags", "raw-binary", "chain", "record-shape", "payout-output-indexes", "foreign-kind"}
 
 var amounts = []uint64{1, 546, 100000, 100000000}
 
@@ -80,12 +83,14 @@ type space struct {
 	rawflags []bool
 	rawbin   []bool
 	chain    []bool
+	recShape []string
+	voutPat  [][]int // payout layout: output index of the j-th unspent output
 }
 
 func (s *space) sizes() [nDims]int {
 	return [nDims]int{len(s.types), len(s.atypes), len(s.testnet), len(s.inSeq), len(s.amtPat), len(s.layout), len(s.ff), len(s.keyPat), len(s.destPat),
 		len(s.amtClass), len(s.fee), len(s.subfee), len(s.change), len(s.msg), len(s.seq), len(s.lock), len(s.txver), len(s.useall), len(s.rfc),
-		len(s.via), len(s.txfn), len(s.noapply), len(s.amtfmt), len(s.raw), len(s.rawflags), len(s.rawbin), len(s.chain)}
+		len(s.via), len(s.txfn), len(s.noapply), len(s.amtfmt), len(s.raw), len(s.rawflags), len(s.rawbin), len(s.chain), len(s.recShape), len(s.voutPat), len(kinds)}
 }
 
 func ip(v int) *int   { return &v }
@@ -141,7 +146,7 @@ func makeSpace(thorough bool) *space {
 		types:    []int{3, 4},
 		atypes:   []string{"p2kh", "segwit", "bech32", "tap"},
 		testnet:  []bool{false, true},
-		layout:   []string{"sep", "shared", "sepwit"},
+		layout:   []string{"sep", "shared", "sepwit", "payout"},
 		ff:       []bool{false, true},
 		keyPat:   []string{"distinct", "same", "rev"},
 		subfee:   []bool{false, true},
@@ -155,6 +160,13 @@ func makeSpace(thorough bool) *space {
 		rawflags: []bool{false, true},
 		rawbin:   []bool{false, true},
 		chain:    []bool{false, true},
+	}
+	s.recShape = recordShapes
+	// output indexes at every digit-count boundary; within a pattern an index and its
+	// truncations / neighbours occur both listed and unlisted
+	s.voutPat = [][]int{{1000, 7, 42, 999}, {0, 9, 10, 99}, {100, 999, 1001, 1000}, {2345, 1000, 234, 100}, {9999, 10000, 99, 1}, {1001, 100, 10, 1}, {10000, 1000, 100, 10}}
+	if thorough {
+		s.voutPat = append(s.voutPat, []int{12345, 1234, 123, 12}, []int{999, 99, 9, 0}, []int{65535, 6553, 655, 65}, []int{1999, 199, 19, 2000})
 	}
 	var seqs []string
 	if thorough {
@@ -207,6 +219,13 @@ func (s *space) build(v [nDims]int, family string, idx int) *Case {
 		Fee: s.fee[v[dFee]].Fee, FeeVia: s.fee[v[dFee]].Via, SubFee: s.subfee[v[dSubFee]], Msg: s.msg[v[dMsg]], Seq: s.seq[v[dSeq]],
 		Lock: s.lock[v[dLock]], TxVer: s.txver[v[dTxVer]], UseAll: s.useall[v[dUseAll]], RFC6979: s.rfc[v[dRFC]], TxFn: s.txfn[v[dTxFn]],
 		NoApply: s.noapply[v[dNoApply]], Raw: s.raw[v[dRaw]], RawFlags: s.rawflags[v[dRawFlags]], RawBinary: s.rawbin[v[dRawBin]], Chain: s.chain[v[dChain]]}
+	c.RecShape = s.recShape[v[dRecShape]]
+	if c.ForeignFirst {
+		c.ForeignKind = kinds[v[dForeignKind]]
+	}
+	if c.Layout == "payout" {
+		c.Vouts = s.voutPat[v[dVoutPat]]
+	}
 	cfgKind := kindOfAtype[c.AType]
 	resolve := func(k string) string {
 		if k == "own:cfg" {
@@ -436,6 +455,61 @@ func (s *space) pairwise(family string, startIdx, rot int) (cases []*Case, pairs
 		cases = append(cases, s.build(v, family, startIdx+len(cases)))
 	}
 	return
+}
+
+// recordFamily is the family "balance-folder record shapes": the full product of
+// payout output-index patterns x record shapes (x atype in thorough) for balance
+// folders of 1, 2 and 4 unspent outputs of one big funding transaction; the
+// request classes are the productive ones, everything else cycles.
+func (s *space) recordFamily(family string, startIdx int, thorough bool) []*Case {
+	sz := s.sizes()
+	find := func(list [][]string, want []string) int {
+		for i, x := range list {
+			if strings.Join(x, ",") == strings.Join(want, ",") {
+				return i
+			}
+		}
+		return 0
+	}
+	idxOf := func(list []string, want string) int {
+		for i, x := range list {
+			if x == want {
+				return i
+			}
+		}
+		return 0
+	}
+	payout := idxOf(s.layout, "payout")
+	classes := []int{idxOf(s.amtClass, "exact"), idxOf(s.amtClass, "half"), idxOf(s.amtClass, "firstexact")}
+	var out []*Case
+	n := 0
+	for pi := range s.voutPat {
+		for si := range s.recShape {
+			for ai := range s.atypes {
+				if !thorough && ai != (pi+si)%len(s.atypes) {
+					continue
+				}
+				k := kindOfAtype[s.atypes[ai]]
+				k2 := kinds[(ai+1)%len(kinds)]
+				for ci, seq := range [][]string{{k}, {k2, k}, ks("KSWR")} {
+					var v [nDims]int
+					for d, j := 0, 0; d < nDims; d++ {
+						j++
+						v[d] = (n*(2*j+1) + n/sz[d] + j) % sz[d]
+					}
+					v[dLayout], v[dVoutPat], v[dRecShape], v[dAType] = payout, pi, si, ai
+					v[dInSeq] = find(s.inSeq, seq)
+					v[dAmtClass] = classes[(n+ci)%len(classes)]
+					v[dAmtPat] = 2    // 10^8, 10^5, 546, 1: all values differ
+					v[dFee] = 1 + n%2 // fee 0 or 1 satoshi keeps small folders spendable
+					v[dSubFee] = 0
+					out = append(out, s.build(v, family, startIdx+len(out)))
+					n++
+				}
+			}
+		}
+	}
+	return out
 }
 
 func (s *space) describe() map[string]interface{} {
